@@ -29,8 +29,9 @@ func init() {
 			"R3": "Marshal: MessageLength = m.Len() after m.AVP is replaced",
 			"R4": "Unmarshal scans every struct level (embedded structs included) against the complete AVP list of that level",
 			"R5": "omitempty: a pointer / interface field is empty exactly when it is nil",
+			"R6": "no package-level state is written on the Marshal / Unmarshal path",
 		},
-		MinInstances: map[string]int{"R1": 18, "R2": 3, "R3": 1, "R4": 1, "R5": 1},
+		MinInstances: map[string]int{"R1": 18, "R2": 3, "R3": 1, "R4": 1, "R5": 1, "R6": 1},
 		Assumptions:  []string{"reflect.New(t)/Set/Convert produce a value of type t (package reflect contract)"},
 	})
 }
@@ -247,6 +248,7 @@ func runC18(c *Ctx) {
 	}
 
 	c.c18Unmarshal()
+	c.c18NoSharedState()
 
 	// ---- R3 ----
 	if mm := c.P.Method("diam", "Message", "Marshal"); mm != nil {
@@ -550,4 +552,78 @@ func (c *Ctx) callsTypeSwitchHelper(f *ssa.Function) bool {
 		}
 	}
 	return false
+}
+
+// c18NoSharedState: R6 — dictionary faithfulness per message: what Marshal / Unmarshal produce depends on the
+// message's own dictionary and the struct only. No function on their path writes package-level state (a cache
+// of tag look-ups shared between messages answers for another dictionary).
+func (c *Ctx) c18NoSharedState() {
+	r := c.R
+	var roots []*ssa.Function
+	for _, n := range []string{"Marshal", "Unmarshal"} {
+		if f := c.P.Method("diam", "Message", n); f != nil {
+			roots = append(roots, f)
+		}
+	}
+	if len(roots) == 0 {
+		r.Undecided("R6", "role:Marshal/Unmarshal", "-", "entry points not found")
+		return
+	}
+	cl := c.reach(roots, false, false, true)
+	bad := 0
+	isGlobalAddr := func(v ssa.Value) *ssa.Global {
+		for i := 0; i < 6; i++ {
+			switch x := v.(type) {
+			case *ssa.Global:
+				return x
+			case *ssa.FieldAddr:
+				v = x.X
+			case *ssa.IndexAddr:
+				v = x.X
+			case *ssa.UnOp:
+				v = x.X
+			default:
+				return nil
+			}
+		}
+		return nil
+	}
+	for f := range cl {
+		if !c.P.IsLibrary(f) || pkgOf(f).Path() != pkgDiam {
+			continue
+		}
+		flow.Instrs(f, func(in ssa.Instruction) {
+			switch x := in.(type) {
+			case *ssa.Store:
+				if g := isGlobalAddr(x.Addr); g != nil {
+					bad++
+					r.Fail("R6", fname(f)+":store-global-"+g.Name(), c.pos(x), "the marshalling path writes the package-level variable "+g.Name()+": state shared between messages (and dictionaries) influences what is produced")
+				}
+			case *ssa.MapUpdate:
+				if g := isGlobalAddr(x.Map); g != nil {
+					bad++
+					r.Fail("R6", fname(f)+":update-global-"+g.Name(), c.pos(x), "the marshalling path updates the package-level map "+g.Name()+": results of one message's dictionary look-ups are reused for others")
+				}
+			case *ssa.Call:
+				// mutating methods of a package-level sync.Map / cache object
+				o := flow.CalleeObj(x)
+				if o == nil || o.Pkg() == nil || o.Pkg().Path() != "sync" || len(x.Call.Args) == 0 {
+					return
+				}
+				if flow.RecvTypeName(o.Type().(*types.Signature)) != "Map" {
+					return
+				}
+				switch o.Name() {
+				case "Store", "LoadOrStore", "Swap", "CompareAndSwap", "Delete", "LoadAndDelete":
+					if g := isGlobalAddr(x.Call.Args[0]); g != nil {
+						bad++
+						r.Fail("R6", fname(f)+":update-global-"+g.Name(), c.pos(x), "the marshalling path stores into the package-level sync.Map "+g.Name()+": dictionary look-ups of one message are reused for messages with another dictionary")
+					}
+				}
+			}
+		})
+	}
+	if bad == 0 {
+		r.Ok("R6", "marshal-path:no-shared-state", "-", fmt.Sprintf("%d functions on the Marshal/Unmarshal path write no package-level state", len(cl)))
+	}
 }
